@@ -14,7 +14,7 @@ from vlib.harness import result, digest, violation
 
 PID = 'C03'
 RULE = ("seeded random sequential designs (one clocked context + one concurrent context, 4-6 outputs, local signals, "
-        "variables, an array) of 4..20 statements, nesting <=2; each is explored breadth first over (vsim state, "
+        "variables incl. Variable[bool] captured and overwritten, arrays, optional record signal) of 4..20 statements, nesting <=2; each is explored breadth first over (vsim state, "
         "reference state) with all input valuations per state up to an edge budget, then 200/1000 random clocks. "
         "distinct_nontrivial = distinct (feature set, statement count, states reached) of designs that were accepted, "
         "compared without model error and reached >=3 joint states.")
